@@ -277,7 +277,12 @@ package text
 //@   assigns nothing
 
 //@ import "io/ioutil"
+//@ import "os"
 //@ assume func ioutil.ReadFile(filename string) (data []byte, err error)
+//@   ensures  data == nil || fresh(data)
+//@   assigns  nothing
+//@ -- (ioutil.ReadFile is os.ReadFile since Go 1.16: the same assumption under either name)
+//@ assume func os.ReadFile(name string) (data []byte, err error)
 //@   ensures  data == nil || fresh(data)
 //@   assigns  nothing
 //@ -- ReadFile: every call builds its own File (nothing is shared between callers: C14)
@@ -285,7 +290,7 @@ package text
 //@   props C11,C14
 //@   ensures  (f == nil) != (err == nil)
 //@   ensures  [own-file;C14] f != nil ==> fresh(f) && wfFile(f) && f.offset == 1 && f.lines == nil && f.filename == filename
-//@   logs ioutil.ReadFile
+//@   logs ioutil.ReadFile, os.ReadFile
 //@   ensures  [crlf;C11,C09,C08] f != nil ==> ncalls() == 1 && strof(f.data) == replaceAll(strof(callres[[]byte](1, 0)), "\r\n", "\n")
 //@   assigns  nothing
 
